@@ -3,6 +3,7 @@ NEXT NextCases
 INVARIANT NoEarlyWrite
 INVARIANT AttachLast
 INVARIANT Outcome
+INVARIANT ExecRegistryOnly
 INVARIANT SpecCarriesNothing
 INVARIANT DelFrame
 CHECK_DEADLOCK FALSE
